@@ -1,5 +1,5 @@
 (* C06, BufRead face: the body reader model refines the strict recogniser. *)
-From KV Require Import Lib.Bytes Lib.Utf8 Model.Body Spec.ChunkedSpec Proofs.BodyBase.
+From KV Require Import Lib.Bytes Lib.Utf8 Model.Body Spec.ChunkedSpec Proofs.BodyBase Proofs.BodyBaseChunk.
 
 Local Open Scope N_scope.
 
@@ -85,4 +85,111 @@ Proof.
   destruct (take_n n (lo ++ concat st)) as [[d a]|] eqn:Et; [discriminate|].
   apply take_n_none in Et. unfold new_fixed. apply fixed_bufread_all_invalid; [|exact Hpos].
   cbn [f_remaining f_src]. rewrite src_rest_mk. exact Et.
+Qed.
+
+(* ------------------------------------------------------------------ chunked *)
+Lemma chunked_fill_buf_spec c acc D : CB c -> st_dec c acc = D -> D <> Unspecified ->
+  (exists e c', chunked_fill_buf c = RErr e c' /\ exists w, D = Invalid w) \/
+  (exists c', chunked_fill_buf c = ROk [] c' /\ c_state c' = CDone /\ st_dec c' acc = D /\ CB c') \/
+  (exists c', chunked_fill_buf c = ROk (firstnN (c_remaining c') (bbuf (c_src c'))) c' /\
+              bbuf (c_src c') <> [] /\ c_state c' = CData /\ c_remaining c' <> 0 /\
+              st_dec c' acc = D /\ CB c').
+Proof.
+  intros Hb HD HU. unfold chunked_fill_buf.
+  pose proof (advance_ok c acc Hb) as Hadv. rewrite HD in Hadv.
+  destruct (step_ok_inv _ _ _ _ Hadv HU) as [[e [c' [He Hw]]]|[c1 [Hc1 [Hd1 [Hb1 Hr1]]]]].
+  - left. rewrite He. exists e, c'. split; [reflexivity|exact Hw].
+  - rewrite Hc1. destruct Hr1 as [Hdone|[Hdata Hrem]].
+    + rewrite Hdone. right. left. exists c1. repeat split; assumption.
+    + rewrite Hdata.
+      destruct (fill_buf_spec (c_src c1)) as [F1 [F2 F3]].
+      set (c2 := {| c_src := fill_buf (c_src c1); c_state := CData; c_remaining := c_remaining c1 |}).
+      assert (Hd2 : st_dec c2 acc = D).
+      { rewrite <- Hd1. unfold st_dec, c2. cbn [c_src c_state c_remaining]. rewrite Hdata, F1. reflexivity. }
+      assert (Hb2 : CB c2) by (unfold CB, c2; cbn [c_src]; apply fill_buf_Bound; exact Hb1).
+      destruct (bbuf (fill_buf (c_src c1))) as [|x b] eqn:Eb.
+      * left. eexists. eexists. split; [reflexivity|]. exists Truncated.
+        rewrite <- Hd1. apply data_eof; [exact Hdata|exact Hrem|exact (F3 eq_refl)].
+      * right. right. exists c2. unfold c2 at 2 3 4 5. cbn [c_src c_state c_remaining]. rewrite Eb.
+        split; [reflexivity|]. split; [discriminate|]. repeat split; assumption.
+Qed.
+
+(* one fill_buf / consume round in the middle of a chunk *)
+Lemma chunked_consume_step c acc a : 0 < a -> CB c -> bbuf (c_src c) <> [] -> c_state c = CData ->
+  c_remaining c <> 0 ->
+  let avail := firstnN (c_remaining c) (bbuf (c_src c)) in
+  let got := firstnN a avail in
+  let c' := chunked_consume (lenN got) c in
+  avail <> [] /\ got <> [] /\ st_dec c' (acc ++ got) = st_dec c acc /\ CB c'.
+Proof.
+  intros Ha Hb Hne Hst Hrem avail got c'.
+  destruct (bufread_piece a (c_remaining c) _ Ha ltac:(lia) Hne) as [P1 [P2 [P3 [t P4]]]].
+  cbv zeta in P1, P2, P3, P4. fold avail in P1, P2, P3, P4. fold got in P2, P3, P4.
+  destruct (consume_prefix (c_src c) got t P4) as [C1 C2].
+  split; [exact P1|]. split; [exact P2|]. split.
+  - apply data_step; [exact Hst|unfold c', chunked_consume; cbn [c_state]; exact Hst|exact C1|exact P3|reflexivity].
+  - unfold CB, c', chunked_consume. cbn [c_src]. apply (Bound_split (c_src c) _ got); assumption.
+Qed.
+
+Lemma chunked_bufread_all_valid : forall amts c acc p rest q, CB c ->
+  st_dec c acc = Valid p rest -> p = acc ++ q ->
+  Forall (fun k => 0 < k) amts -> (length q < length amts)%nat ->
+  fst (bufread_all (BChunked c) amts acc) = (p, AtEof).
+Proof.
+  induction amts as [|a amts IH]; intros c acc p rest q Hb HD Hp Hpos Hlen; [cbn [length] in Hlen; lia|].
+  inversion Hpos as [|k' sz' Ha Hpos']. subst k' sz'.
+  destruct (chunked_fill_buf_spec c acc _ Hb HD ltac:(discriminate))
+    as [[e [c' [He [w Hw]]]]|[[c' [Ho [Hdone [Hd' Hb']]]]|[c' [Ho [Hne [Hst [Hrem [Hd' Hb']]]]]]]]; [discriminate| |].
+  - rewrite (bufread_all_eof _ a amts acc (BChunked c')); [|cbn [body_fill_buf]; rewrite Ho; reflexivity].
+    rewrite (done_dec c' _ Hdone) in Hd'. inversion Hd'. reflexivity.
+  - destruct (chunked_consume_step c' acc a Ha Hb' Hne Hst Hrem) as [P1 [P2 [P3 P4]]].
+    cbv zeta in P1, P2, P3, P4.
+    rewrite (bufread_all_more _ a amts acc (firstnN (c_remaining c') (bbuf (c_src c'))) (BChunked c'));
+      [|cbn [body_fill_buf]; rewrite Ho; reflexivity|exact P1].
+    cbn [body_consume].
+    remember (firstnN a (firstnN (c_remaining c') (bbuf (c_src c')))) as got eqn:Egot.
+    rewrite Hd' in P3.
+    destruct (st_dec_prefix _ _ _ _ P3) as [q' Hq'].
+    apply (IH _ (acc ++ got) p rest q' P4 P3 Hq' Hpos').
+    assert (Hqq : q = got ++ q').
+    { apply (app_inv_head acc). rewrite <- Hp, Hq', app_assoc. reflexivity. }
+    rewrite Hqq, app_length in Hlen. destruct got; [congruence|]. cbn [length] in Hlen. lia.
+Qed.
+
+Lemma chunked_bufread_valid : forall lo st amts p rest,
+  spec_decode (lo ++ concat st) = Valid p rest -> Forall (fun k => 0 < k) amts ->
+  (length p < length amts)%nat ->
+  fst (bufread_all (new_chunked lo st) amts []) = (p, AtEof).
+Proof.
+  intros lo st amts p rest Hs Hpos Hlen. unfold new_chunked.
+  apply (chunked_bufread_all_valid amts _ [] p rest p); try assumption.
+  - apply Bound_mk.
+  - reflexivity.
+Qed.
+
+Lemma chunked_bufread_all_invalid : forall amts c acc w, CB c ->
+  st_dec c acc = Invalid w -> Forall (fun k => 0 < k) amts ->
+  snd (fst (bufread_all (BChunked c) amts acc)) <> AtEof.
+Proof.
+  induction amts as [|a amts IH]; intros c acc w Hb HD Hpos; [cbn; discriminate|].
+  inversion Hpos as [|k' sz' Ha Hpos']. subst k' sz'.
+  destruct (chunked_fill_buf_spec c acc _ Hb HD ltac:(discriminate))
+    as [[e [c' [He _]]]|[[c' [Ho [Hdone [Hd' Hb']]]]|[c' [Ho [Hne [Hst [Hrem [Hd' Hb']]]]]]]].
+  - rewrite (bufread_all_err _ a amts acc e (BChunked c')); [|cbn [body_fill_buf]; rewrite He; reflexivity].
+    cbn [fst snd]. discriminate.
+  - exfalso. rewrite (done_dec c' _ Hdone) in Hd'. discriminate.
+  - destruct (chunked_consume_step c' acc a Ha Hb' Hne Hst Hrem) as [P1 [P2 [P3 P4]]].
+    cbv zeta in P1, P2, P3, P4.
+    rewrite (bufread_all_more _ a amts acc (firstnN (c_remaining c') (bbuf (c_src c'))) (BChunked c'));
+      [|cbn [body_fill_buf]; rewrite Ho; reflexivity|exact P1].
+    cbn [body_consume]. rewrite Hd' in P3.
+    exact (IH _ _ w P4 P3 Hpos').
+Qed.
+
+Lemma chunked_bufread_invalid : forall lo st amts w,
+  spec_decode (lo ++ concat st) = Invalid w -> Forall (fun k => 0 < k) amts ->
+  snd (fst (bufread_all (new_chunked lo st) amts [])) <> AtEof.
+Proof.
+  intros lo st amts w Hs Hpos. unfold new_chunked.
+  apply (chunked_bufread_all_invalid amts _ [] w); try assumption. apply Bound_mk.
 Qed.
